@@ -5,13 +5,13 @@
 use crate::common::*;
 use crate::driver::{harness_error, Env};
 use crate::findings::{multiset_exact, describe, first_difference, multiset, with_positions, NF};
-use crate::gen::{self, Knobs, Layout, Project, ProjectShape, Registry, Style};
+use crate::gen::{self, Def, DefKind, Knobs, Layout, Project, ProjectShape, Registry, Stmt, Style};
 use crate::minimise::minimise_case;
 use crate::outparse::parse_stdout;
 use crate::procrun::{Outcome, Runner};
-use crate::report::{conclude, Evidence, Violation};
+use crate::report::{Evidence, Violation};
 use crate::rng::{hash_str, Rng};
-use crate::world::{Case, World};
+use crate::world::{Case, Fault, World};
 use serde_json::{json, Value};
 use std::collections::{BTreeMap, BTreeSet};
 use std::time::Instant;
@@ -63,6 +63,35 @@ fn build(seed: u64, i: usize) -> Built {
                 project.named.push(off + j);
             }
         }
+    }
+    let mut r_shape = base.sub("shapes");
+    let hand = |name: &str, body: &str, refs: &[&str]| Def {
+        kind: DefKind::Template { custom: false, parallel: false },
+        name: name.to_string(),
+        params: vec![],
+        body: vec![Stmt::Raw(body.split_whitespace().map(|t| t.to_string()).collect())],
+        inputs: vec![],
+        outputs: vec![],
+        refs: refs.iter().map(|t| t.to_string()).collect(),
+    };
+    // a template the desugaring has to drop, used anonymously by another one: whether the
+    // user is told "does not exist" or something else must not depend on the visiting order
+    if r_shape.chance(1, 10) {
+        let fi = project.named[r_shape.usize(project.named.len())];
+        let broken = *r_shape.pick(&["signal input a ; signal output b ; var ( p , q ) = ( 1 , 2 , 3 ) ; b <== a ;", "signal input a ; signal output b ; b <== NoSuchGate ( ) ( a , a ) ;"]);
+        project.files[fi].defs.push(hand("BrokenQ", broken, &[]));
+        let fj = project.named[r_shape.usize(project.named.len())];
+        project.files[fj].defs.push(hand("UsesBrokenQ", "signal input x ; signal output y ; y <== BrokenQ ( ) ( x ) ; y * x === 1 ;", &["BrokenQ"]));
+        if r_shape.chance(1, 2) {
+            project.files[fj].defs.push(hand("AlsoUsesBrokenQ", "signal input x ; signal output y ; var unused = 3 ; y <== BrokenQ ( ) ( x + 1 ) ;", &["BrokenQ"]));
+        }
+    }
+    // one name, two bodies, two named files: which body is analysed is decided by the
+    // order in which the files are parsed, and by nothing else
+    if project.named.len() >= 2 && r_shape.chance(1, 10) {
+        let (fa, fb) = (project.named[0], project.named[1]);
+        project.files[fa].defs.push(hand("SameNameQ", "signal input a ; signal output b ; var never_read = 1 ; b <== a * a ;", &[]));
+        project.files[fb].defs.push(hand("SameNameQ", "signal input a ; signal output b ; b <-- a ;", &[]));
     }
     let style = Style::random(&mut r_style);
     let style_seed = r_style.next_u64();
@@ -171,6 +200,17 @@ fn one(runner: &Runner, seed: u64, i: usize, keys: usize) -> Res {
             return;
         }
         let diff = first_difference(ma, mb);
+        // of two definitions with one name only the first one parsed is analysed (and the
+        // name is reported): under the reordering relations that is one listed finding
+        let dup = ma.iter().chain(mb.iter()).any(|n| n.code == "T2008");
+        if dup && ["reorder-files", "dir-order", "reorder-defs"].contains(&rel) && diff.is_some() {
+            res.violation = Some((
+                format!("duplicate-name:{rel}"),
+                format!("{what}; a name is defined twice, and which definition is analysed follows the parse order"),
+                json!({"kind": "C17", "relation": rel, "seed": seed, "index": i, "a": a, "b": bc}),
+            ));
+            return;
+        }
         let (code, detail) = match &diff {
             Some((Some(x), _)) => (diff_key(&diff), format!("only in first: {}", describe(x))),
             Some((_, Some(y))) => (diff_key(&diff), format!("only in second: {}", describe(y))),
@@ -228,6 +268,22 @@ fn one(runner: &Runner, seed: u64, i: usize, keys: usize) -> Res {
             *res.relations.entry("short-reads").or_default() += 1;
             if m != x0 {
                 report("short-reads", format!("same files and options, read(2) returns at most {} bytes per call", c.plan.shortread), &b.base, &c, &x0, &m, &mut res);
+            }
+        }
+    }
+    // relation 2'': one input file is slow to open and to read (real time; the simulated
+    // clock does not move): whoever reads files concurrently finishes in another order
+    if b.project.named.len() >= 2 {
+        let mut c = b.base.clone();
+        let slow = r_keys.pick(&b.project.named_paths()).clone();
+        let ms = 30 + r_keys.below(50) as i32;
+        c.plan.faults.push(Fault { call: "open".into(), errno: -1000 - ms, occurrence: 1, suffix: slow.clone() });
+        c.plan.faults.push(Fault { call: "read".into(), errno: -1000 - ms, occurrence: 1, suffix: slow.clone() });
+        if let Some(o) = run(&c, &mut res) {
+            let m = multiset_exact(&parse_stdout(&o.stdout), &b.world);
+            *res.relations.entry("slow-file").or_default() += 1;
+            if m != x0 {
+                report("slow-file", format!("same files and options, `{slow}` takes {ms} ms longer to open and to read"), &b.base, &c, &x0, &m, &mut res);
             }
         }
     }
@@ -468,7 +524,18 @@ pub fn run(env: &Env) -> i32 {
                         cb.plan.faults = c.plan.faults.clone();
                         differs(&runner, c, &cb).map(|k| k == want).unwrap_or(false)
                     };
-                    if fails(&a) {
+                    // (a difference that comes from outside the seams, e.g. threads racing in
+                    // the code under test, need not show on every replay)
+                    let mut reproduced = false;
+                    for _ in 0..6 {
+                        if fails(&a) {
+                            reproduced = true;
+                            break;
+                        }
+                    }
+                    if !reproduced {
+                        v.detail.push_str(" [did not reproduce in 6 replays of the recorded pair: the difference does not come from the hash key, the clock or the file system alone]");
+                    } else if fails(&a) {
                         let mut small = a.clone();
                         // keep a's hash key: step 5 of the minimiser would equalise the keys
                         let akey = a.plan.hashkey.clone();
@@ -477,8 +544,6 @@ pub fn run(env: &Env) -> i32 {
                         sb.plan = bplan.clone();
                         v.replay["a"] = json!(small);
                         v.replay["b"] = json!(sb);
-                    } else {
-                        harness_error(&format!("C17: violation {sig} did not reproduce"));
                     }
                 }
             }
@@ -504,7 +569,7 @@ pub fn run(env: &Env) -> i32 {
     cov.insert("reruns_with_equal_findings_but_different_bytes".into(), json!(results.iter().map(|r| r.byte_differences).sum::<usize>()));
     cov.insert("relation_checks".into(), json!(relations));
     {
-        let names = ["replay-identical", "clock-and-aslr", "hash-order", "short-reads", "reorder-definitions", "reorder-files", "missing-file-position", "directory-listing-order", "frame-add", "frame-remove", "stall-isolation"];
+        let names = ["replay-identical", "clock-and-aslr", "hash-order", "short-reads", "slow-file", "reorder-definitions", "reorder-files", "missing-file-position", "directory-listing-order", "frame-add", "frame-remove", "stall-isolation"];
         let mut probes: Vec<(&str, usize)> = names.iter().map(|k| (*k, relations.get(k).copied().unwrap_or(0))).collect();
         probes.push(("project with two or more analysis orders", results.iter().filter(|r| r.distinct_orders >= 2).count()));
         crate::report::add_probes(&mut cov, &probes);
@@ -533,7 +598,24 @@ pub fn run(env: &Env) -> i32 {
         violations: violations.len(),
     }
     .write();
-    conclude("C17", &violations)
+    let reproduce = |v: &Value| -> Option<String> {
+        let a: Case = serde_json::from_value(v["a"].clone()).ok()?;
+        let b: Case = serde_json::from_value(v["b"].clone()).ok()?;
+        let rel = v["relation"].as_str().unwrap_or("").to_string();
+        let (oa, ob) = (runner.run(&a).ok()?, runner.run(&b).ok()?);
+        if crashed(&oa) || crashed(&ob) {
+            return None;
+        }
+        let ma = multiset(&parse_stdout(&oa.stdout), &a.world);
+        let mb = multiset(&parse_stdout(&ob.stdout), &b.world);
+        let d = first_difference(&ma, &mb);
+        d.as_ref()?;
+        if ma.iter().chain(mb.iter()).any(|n| n.code == "T2008") && ["reorder-files", "dir-order", "reorder-defs"].contains(&rel.as_str()) {
+            return Some(format!("duplicate-name:{rel}"));
+        }
+        Some(format!("{rel}:{}", diff_key(&d)))
+    };
+    crate::report::conclude_with("C17", &violations, Some(&reproduce))
 }
 
 pub fn replay(env: &Env, v: &Value) -> i32 {
